@@ -83,7 +83,7 @@ func units(tier string) []mc.Unit {
 			}
 		}
 	}
-	return us
+	return append(us, driverUnits(tier)...)
 }
 
 // fault-free runs are pure functions of the chain: cached per process
@@ -129,6 +129,10 @@ func compare(c *mc.Ctx, p params, what string, got, want []sk.Obs, ctxt string) 
 }
 
 func run(c *mc.Ctx, u mc.Unit) {
+	if dp, ok := u.Params.(drvParams); ok {
+		runDriver(c, dp)
+		return
+	}
 	p := u.Params.(params)
 	dir := sk.ScratchDir()
 	defer os.RemoveAll(dir)
@@ -273,7 +277,7 @@ func main() {
 			"a storage fault = one row write (INSERT/UPDATE/DELETE, including cascaded deletes) failing with an SQLite ABORT raised by a trigger; SQLite's own atomic commit is trusted",
 			"a process kill = the fault followed by dropping every in-memory object and re-opening the same file with the real constructor",
 			"context cancellation in the middle of a block cannot be placed at a chosen statement (database/sql rolls back from its own goroutine) and is not covered; see DESIGN §3.4/§8",
-			"the clause 'no later block is recorded while an earlier one is missing' is a driver property and is checked by the driver-level harnesses (C05/C06), here only the store's last-processed marker is checked",
+			"the clause 'no later block is recorded while an earlier one is missing' is checked in the driver units: the real EVMDriver.Sync with its real retry loop over the real store, a fault at every row write persisting for 1..3 consecutive attempts (3 = the retry limit: the driver gives up), thorough: also every (first, second) position pair; sync.LogFatalf (process exit) is turned into the end of the driver goroutine",
 		},
 		Bounds: func(tier string) map[string]any {
 			return map[string]any{"prefixes": prefixes, "faulted_block_kinds": faulted, "following_blocks": tails,
